@@ -34,6 +34,23 @@ func stageOf(err error) string {
 
 var loopback = net.IPv4(127, 0, 0, 1)
 
+// transportPeer: the address the query "arrived from", a deterministic function of the payload (so that a
+// case replays alone): the host itself, LAN clients, and clients that are neither - a public IPv4 address, a CGNAT /
+// tailnet one, a global IPv6 one - and no address at all. What query.New does with the EDNS options must not depend
+// on it (C13: the ECS address never leaves the host, whoever sent the query).
+var transportPeers = []net.IP{net.IPv4(127, 0, 0, 1), net.IPv4(192, 168, 1, 2), net.IPv4(203, 0, 113, 7), net.IPv4(100, 64, 3, 9),
+	net.ParseIP("2a01:e0a::123"), net.ParseIP("::1"), net.ParseIP("fd00::5"), net.IPv4(10, 9, 8, 7).To4(), nil, net.IPv4(8, 8, 4, 4).To4()}
+
+func transportPeer(payload []byte) net.IP {
+	h := uint32(2166136261)
+	for _, b := range payload {
+		h = (h ^ uint32(b)) * 16777619
+	}
+	return transportPeers[int(h>>8)%len(transportPeers)]
+}
+
+func samePeer(a, b net.IP) bool { return len(a) == len(b) && (len(a) == 0 || a.Equal(b)) }
+
 type parseRes struct {
 	q     query.Query
 	err   error
@@ -52,7 +69,7 @@ func runParse(payload []byte, deadline time.Duration) (line string, q query.Quer
 			}
 			ch <- r
 		}()
-		r.q, r.err = query.New(p, loopback, loopback)
+		r.q, r.err = query.New(p, transportPeer(payload), loopback)
 	}()
 	select {
 	case r := <-ch:
@@ -61,7 +78,7 @@ func runParse(payload []byte, deadline time.Duration) (line string, q query.Quer
 		}
 		q := r.q
 		peer := "none"
-		if !q.PeerIP.Equal(loopback) || len(q.PeerIP) != len(loopback) {
+		if !samePeer(q.PeerIP, transportPeer(payload)) {
 			peer = hx(q.PeerIP)
 		}
 		mac := "none"
